@@ -5,6 +5,7 @@ From Coq Require Import NArith List Bool.
 Require Import SDS.Model.Mach SDS.Model.Bits SDS.Model.Raw SDS.Model.IntVec SDS.Model.BitVec SDS.Model.Ser.
 Require Import SDS.Spec.Stream SDS.Check.Common.
 Require Export SDS.Model.Ser SDS.Check.SerCommon.
+Require Export SDS.Check.SerWM.   (* WMCore / WaveletMatrix: the CStripW case *)
 Import ListNotations.
 Open Scope N_scope.
 
@@ -18,7 +19,12 @@ Inductive case :=
         (ops : list N) (flags_end : N) (elems_end : list N) (eq_full idem answers : bool)
 (* skip_option on a stream: declared = its first element; outcome code; reader position afterwards;
    the element read next *)
-| CSkip (dbg : bool) (elems : list N) (outcome pos next : N).
+| CSkip (dbg : bool) (elems : list N) (outcome pos next : N)
+(* WMCore / WaveletMatrix of V written by a writer that gives every level only the supports of [subset] (0 = none:
+   what another implementation of the format produces): elems = that file; loading it (followed by [extra])
+   consumed [consumed] bytes; eq_native: the loaded value == the natively built one; answers: sampled queries agree *)
+| CStripW (path : N) (dbg : bool) (t : wty) (V : list N) (subset : N) (elems : list N) (extra : list N) (consumed : N)
+          (eq_native answers : bool).
 
 (* the model of an op sequence on a loaded vector *)
 Fixpoint run_ops (sp : selpath) (m : mode) (ops : list N) (b : bitvec) : option bitvec :=
@@ -82,6 +88,11 @@ Definition check (c : case) : N :=
       let s_ok := (outcome =? 0) && (pos =? 8 * (1 + declared))
                   && match nthN elems (1 + declared) with Some x => x =? next | None => false end in
       code m_ok s_ok
+  | CStripW path dbg t V subset elems extra consumed eq_native answers =>
+      let bytes := stream elems [] in
+      let m_ok := SerWM.stripped_ok (sp_of path) (mode_of dbg) t V subset bytes extra consumed in
+      let s_ok := eq_native && answers && (consumed =? 8 * lenN elems) && SerWM.header_ok t V elems in
+      code m_ok s_ok
   end.
 
 Definition explain (c : case) :=
@@ -93,4 +104,6 @@ Definition explain (c : case) :=
       | _ => ([], 99)
       end
   | CSkip dbg elems outcome pos next => ([], io_code (skip_option (mode_of dbg) (stream elems [])))
+  | CStripW path dbg t V subset elems extra consumed eq_native answers =>
+      ([], fst (SerWM.bad_dec (sp_of path) (mode_of dbg) t (stream elems [] ++ extra)))
   end.
